@@ -68,7 +68,7 @@ def reduce_pairs(rng, tier):
                     base["T"] = 2
                     if base["op"] in ("size", "count") and rng.random() < 0.7:
                         base["op"] = rng.pick(["sum", "min", "max", "first", "last"])
-                elif nkeys == 1 and n >= 2 and rng.random() < 0.3 and not (kencs[0] == "str" and rows[0][0] == NULL) and not kencs[0].startswith("cat"):
+                elif nkeys == 1 and n >= 2 and rng.random() < 0.3 and not kencs[0].startswith("cat"):
                     base["T"] = 2
                 keep = [i for i, r in enumerate(rows) if NULL not in r]
                 f = deleted(base, keep)
@@ -161,7 +161,7 @@ def nearby_pairs(rng, tier):
             else:
                 c["kenc"] = rng.pick(["f64", "str", "M8", "cat"])
                 c["kcont"] = rng.pick(["np", "series"])
-                if n >= 2 and rng.random() < 0.4 and not c["kenc"].startswith("cat") and not (c["kenc"] == "str" and ks[0] == NULL):
+                if n >= 2 and rng.random() < 0.4 and not c["kenc"].startswith("cat"):
                     c["T"] = 2
                 c["pre"] = rng.pick([[], [], ["groups"], ["cumsum"], ["sum", "groups"]])
             keep = [i for i, k in enumerate(ks) if k != NULL]
